@@ -16,7 +16,7 @@ package gradtrack
 // The protocol of a back-edge function (DESIGN.md C01): when it is invoked, the gradient of the edge's source is
 // complete (non-nil, of the source's shape, itself a spent untracked tensor), and the target has been marked spent.
 //@ abstract chainGradFunc() (g tensor.Tensor, err error)
-//@   requires chainPre(srcOf(self)) && tgtOf(self) != nil && tgtOf(self).gctx != nil && dirtyT(tgtOf(self))
+//@   requires imp(srcOf(self) != nil, chainPre(srcOf(self))) && tgtOf(self) != nil && tgtOf(self).gctx != nil && dirtyT(tgtOf(self))
 //@   ensures[C01,C08] imp(err == nil, isGrad(g) && sameShape(g, tgtOf(self)))
 
 /* ---------------- gradtrack.go ---------------- */
@@ -71,7 +71,7 @@ package gradtrack
 //@   source y
 //@   target x
 //@   implements gradtrack.chainGradFunc
-//@   requires opnd(x)
+//@   requires y != nil && opnd(x)
 //@   requires rank(x) <= rank(y) && forall(k, 0, rank(x), dim(x, k) == dim(y, k + rank(y) - rank(x)) || dim(x, k) == 1)
 //@   ensures[C07,C02] err == nil && o != nil && sameShape(o, x) && isGrad(o)
 //@   loop 0 invariant 0 <= i && i <= ldd - lds && err == nil && isGrad(gy) && rank(gy) == ldd - i
@@ -80,3 +80,124 @@ package gradtrack
 //@   loop 1 invariant i - j == ldd - lds && 0 <= j && j <= lds && err == nil && isGrad(gy) && rank(gy) == lds
 //@   loop 1 invariant forall(k, 0, j, dim(gy, k) == srcDims[k]) && forall(k, j, lds, dim(gy, k) == dstDims[k + ldd - lds])
 //@   loop 1 decreases ldd - i
+
+/* ---------------- gradients.go: products ---------------- */
+
+// C02 for Dot: the gradient of an operand has the operand's shape (value: bounded stand-in)
+//@ define dotShapes(y, a, b) := opnd(a) && opnd(b) && y != nil && sameShape(a, b) && rank(a) >= 1 && rank(y) == rank(a) - 1 && forall(k, 0, rank(y), dim(y, k) == dim(a, k))
+//@ func Dot
+//@   requires dotShapes(y, a, b)
+//@   returns fresh
+//@   ensures[C08] newCtx2(gctx, a, b) && edges2(gctx, y, a, b)
+//@ func Dot#0
+//@   source y
+//@   target a
+//@   implements gradtrack.chainGradFunc
+//@   requires dotShapes(y, a, b)
+//@   ensures[C02] res1 == nil && res0 != nil && sameShape(res0, a) && isGrad(res0)
+//@ func Dot#1
+//@   source y
+//@   target b
+//@   implements gradtrack.chainGradFunc
+//@   requires dotShapes(y, a, b)
+//@   ensures[C02] res1 == nil && res0 != nil && sameShape(res0, b) && isGrad(res0)
+
+//@ define mmShapes(y, a, b) := opnd(a) && opnd(b) && y != nil && rank(a) >= 2 && rank(b) == rank(a) && rank(y) == rank(a)
+//@                            && forall(k, 0, rank(a)-2, dim(a, k) == dim(b, k) && dim(y, k) == dim(a, k))
+//@                            && dim(a, rank(a)-1) == dim(b, rank(a)-2) && dim(y, rank(a)-2) == dim(a, rank(a)-2) && dim(y, rank(a)-1) == dim(b, rank(a)-1)
+//@ func MatMul
+//@   requires mmShapes(y, a, b)
+//@   returns fresh
+//@   ensures[C08] newCtx2(gctx, a, b) && edges2(gctx, y, a, b)
+//@ func MatMul#0
+//@   source y
+//@   target a
+//@   implements gradtrack.chainGradFunc
+//@   requires mmShapes(y, a, b)
+//@   ensures[C02] err == nil && o != nil && sameShape(o, a) && isGrad(o)
+//@ func MatMul#1
+//@   source y
+//@   target b
+//@   implements gradtrack.chainGradFunc
+//@   requires mmShapes(y, a, b)
+//@   ensures[C02] err == nil && o != nil && sameShape(o, b) && isGrad(o)
+
+/* ---------------- gradients.go: Concat ---------------- */
+
+//@ define catOperands(y, xs, dim) := y != nil && len(xs) >= 1 && forall(k, 0, len(xs), opnd(xs[k]) && rank(xs[k]) == rank(y) && 0 <= dim && dim < rank(y)
+//@                                   && forall(m, 0, rank(y), m == dim || dim(xs[k], m) == dim(y, m)))
+//@ func Concat
+//@   requires catOperands(y, xs, dim) && dim(y, dim) == catoff(xs, dim, len(xs))
+//@   returns fresh
+//@   ensures[C08] gctx != nil && gctx.gradient == nil && gctx.bpdirty == exists(k, 0, len(xs), dirtyT(xs[k]))
+//@   ensures[C08] gctx.tracked == (!gctx.bpdirty && exists(k, 0, len(xs), trkT(xs[k])))
+//@   ensures[C08] ite(gctx.tracked, len(gctx.backEdges) == len(xs) && forall(k, 0, len(xs), edgeTo(gctx, k, y, xs[k])), len(gctx.backEdges) == 0)
+//@   loop 0 invariant 0 <= i && i <= len(xs) && len(backEdges) == len(xs) && base == catoff(xs, dim, i)
+//@   loop 0 invariant forall(k, 0, i, backEdges[k] != nil && backEdges[k].target == xs[k] && backEdges[k].gradFn != nil && tgtOf(backEdges[k].gradFn) == xs[k] && srcOf(backEdges[k].gradFn) == y)
+//@   loop 0 hint catoff(xs, dim, 0) == 0
+//@   loop 0 hint forall(k, 0, len(xs), dim(xs[k], dim) >= 1)
+//@   loop 0 hint catoff(xs, dim, 0) <= catoff(xs, dim, i)
+//@   loop 0 hint catoff(xs, dim, i+1) == catoff(xs, dim, i) + dim(xs[i], dim)
+//@   loop 0 hint catoff(xs, dim, i+1) <= catoff(xs, dim, len(xs))
+//@   loop 0 decreases len(xs) - i
+
+// the piece of the upstream gradient that lies in the operand's window [base, base+size) along dim
+//@ func Concat#0
+//@   source y
+//@   target xs[i]
+//@   implements gradtrack.chainGradFunc
+//@   requires y != nil && opnd(tgt) && rank(tgt) == rank(y)
+//@   requires sliceOK(index, y)
+//@   requires forall(k, 0, rank(y), dim(tgt, k) == rwidth(index, k, dim(y, k)))
+//@   ensures[C02] res1 == nil && res0 != nil && sameShape(res0, tgt) && isGrad(res0)
+//@   ensures[C02] forallJ(J, imp(inb(res0, J), el(res0, J) == el(gradOf(y), addFrom(J, index))))
+
+/* ---------------- back_propagation.go ---------------- */
+
+//@ define gradInv(x) := imp(x.gctx.gradient != nil, isGrad(x.gctx.gradient) && sameShape(x.gctx.gradient, x))
+//@ define edgeReady(e) := e != nil && e.gradFn != nil && tinv(e.target) && e.target == tgtOf(e.gradFn) && imp(srcOf(e.gradFn) != nil, chainPre(srcOf(e.gradFn)))
+// representation invariant of the graph (established by every public operation, preserved by the frames): the edges of
+// a context belong to its tensor, and a gradient has its owner's shape and is a spent untracked tensor
+//@ define graphInv() := forallT(x, imp(x != nil && x.gctx != nil, edgeInv(x) && gradInv(x))) && forallT(x, forallT(z, imp(x != nil && z != nil && x.gctx != nil && x.gctx == z.gctx, x == z)))
+
+//@ func accumulateGrad
+//@   requires gctx != nil && isGrad(grad) && imp(gctx.gradient != nil, isGrad(gctx.gradient) && sameShape(gctx.gradient, grad))
+//@   modifies GradContext.gradient
+//@   uses bcompatSame, bshapeLeft
+//@   ensures[C01] err == nil && isGrad(gctx.gradient) && sameShape(gctx.gradient, grad)
+//@   ensures[C01] ite(old(gctx.gradient) == nil, gctx.gradient == grad, forallJ(J, imp(inb(grad, J), el(gctx.gradient, J) == el(old(gctx.gradient), J) + el(grad, J))))
+//@   ensures[C01,C08] forallG(g, g == gctx || g.gradient == old(g.gradient))
+
+//@ func startEdge
+//@   requires tinv(t)
+//@   returns fresh
+//@   ensures[C01] edge != nil && edge.target == t && edge.gradFn != nil && tgtOf(edge.gradFn) == t && srcOf(edge.gradFn) == nil
+
+// the seed: all ones of the root's shape (pow(x, 0) == 1)
+//@ func startEdge#0
+//@   source nil
+//@   target t
+//@   implements gradtrack.chainGradFunc
+//@   requires tinv(t)
+//@   ensures[C01] res1 == nil && res0 != nil && sameShape(res0, t) && isGrad(res0) && forallJ(J, imp(inb(res0, J), el(res0, J) == 1))
+
+//@ func backward
+//@   requires edgeReady(edge) && graphInv()
+//@   modifies GradContext.bpdirty, GradContext.gradient
+//@   ensures[C08] imp(!old(edge.target.gctx.tracked), err == nil && forallG(g, g.bpdirty == old(g.bpdirty) && g.gradient == old(g.gradient)))
+//@   ensures[C08] forallG(g, imp(old(g.bpdirty), g.bpdirty) && imp(old(g.gradient) != nil, g.gradient != nil))
+//@   ensures[C08] forallG(g, imp(!g.tracked, g.bpdirty == old(g.bpdirty) && g.gradient == old(g.gradient)))
+//@   ensures[C01,C08] imp(old(edge.target.gctx.tracked) && err == nil, edge.target.gctx.bpdirty && edge.target.gctx.gradient != nil)
+//@   ensures[C01] graphInv()
+//@   loop 0 invariant err == nil && gctx == edge.target.gctx && gctx.tracked && gctx.bpdirty && gctx.gradient != nil && graphInv()
+//@   loop 0 invariant forallG(g, imp(old(g.bpdirty), g.bpdirty) && imp(old(g.gradient) != nil, g.gradient != nil))
+//@   loop 0 invariant forallG(g, imp(!g.tracked, g.bpdirty == old(g.bpdirty) && g.gradient == old(g.gradient)))
+
+//@ func BackPropagate
+//@   requires tinv(t) && graphInv()
+//@   modifies GradContext.bpdirty, GradContext.gradient
+//@   ensures[C08] imp(!old(t.gctx.tracked), err == nil && forallG(g, g.bpdirty == old(g.bpdirty) && g.gradient == old(g.gradient)))
+//@   ensures[C08] forallG(g, imp(old(g.bpdirty), g.bpdirty) && imp(old(g.gradient) != nil, g.gradient != nil))
+//@   ensures[C08] forallG(g, imp(!g.tracked, g.bpdirty == old(g.bpdirty) && g.gradient == old(g.gradient)))
+//@   ensures[C01,C08] imp(old(t.gctx.tracked) && err == nil, t.gctx.bpdirty && t.gctx.gradient != nil)
+//@   ensures[C01] graphInv()
